@@ -1,6 +1,6 @@
 SPECIFICATION Spec
 CONSTANTS
-  Defects = {"MapOrderDispatch"}
+  Defects = {"EnvelopeCodecAmbiguity"}
   RegKeys = {"PM", "CP", "CT", "IA", "IB", "CE1", "CE2", "CI", "NIL"}
   RegSers = {"Proto", "CBOR", "JSON", "U1", "U2"}
   MaxRegs = 2
